@@ -83,6 +83,11 @@ def job(args):
                     continue
                 out["evals"] += 1
                 sig = {"version": version, "cut_inside_row": inside, "model_predicts_misassembly": not case["model_ok"]}
+                if os.environ.get("VERIF_SAN_MARK"):
+                    import sys
+                    sys.stderr.write("@@case %s\n" % json.dumps(dict(sig, nested="LIST", dictionary=use_dict, element=kind,
+                                                                     cuts=case["cuts"], rows=len(case["rows"]))))
+                    sys.stderr.flush()
                 try:
                     df = fp.ParquetFile(io.BytesIO(data)).to_pandas()
                     got = []
@@ -193,7 +198,7 @@ def run(tier, seed):
     return rc
 
 
-def _run(ev, work, thorough):
+def export_lists(work, thorough):
     cfg = os.path.join(work, "nested.cfg")
     T.write_cfg(cfg, spec="Spec", constants={"MaxRows": 3, "MaxLen": 2, "MaxPages": 3 if thorough else 2,
                                              "ListOptionals": "<- BoolBoth", "ElemOptionals": "<- BoolBoth", "Vals": "<- V2"},
@@ -202,6 +207,11 @@ def _run(ev, work, thorough):
     cases = res.printed_json()
     if not res.completed or not cases:
         raise T.TLCError("Nested export failed:\n" + res.out[-2000:])
+    return cases, res
+
+
+def _run(ev, work, thorough):
+    cases, res = export_lists(work, thorough)
     pred_bad = sum(1 for c in cases if not c["model_ok"])
     ev.add_tlc("Nested: every row structure x every cut of the triple stream, with the transcribed _assemble_objects", res,
                cases=len(cases), mechanism_predicted_misassemblies=pred_bad)
